@@ -666,7 +666,7 @@ class Node:
                     f"`before=node` ({before._parent}) "
                     f"must be a child of target node ({self})"
                 )
-            idx = children.index(before)  # raises ValueError
+            idx = _index_of(children, before)  # raises ValueError
             children.insert(idx, node)
         else:
             children.append(node)
@@ -795,7 +795,7 @@ class Node:
             new_parent._children = [self]  # type: ignore
         elif isinstance(before, Node):
             assert before._parent is new_parent, before
-            idx = target_siblings.index(before)  # raise ValueError if not found
+            idx = _index_of(target_siblings, before)  # raise ValueError if not found
             target_siblings.insert(idx, self)
         elif isinstance(before, int):
             target_siblings.insert(before, self)
